@@ -26,8 +26,8 @@ def S(*xs):
 
 
 def mc(name, clients=("c1", "c2"), maxops=2, ops=("send", "call", "ping", "stop"), scripts="ScriptsCore", cfgs="CfgsCore",
-       kinds="InitKindsAddr", faults=(), maxfaults=0, horizon=0, names="NamesSmall", must_cover=(), idle=False, actors=("a1",), extra_actors="NoExtra", extra_handles="NoExtra", types=("1",)):
-    return {"name": name, "Actor": S(*actors), "Types": S(*types), "ExtraActors": "<- " + extra_actors, "ExtraHandles": "<- " + extra_handles, "Client": S(*clients), "MaxOps": maxops, "OpSet": S(*ops), "Scripts": "<- " + scripts,
+       kinds="InitKindsAddr", faults=(), maxfaults=0, horizon=0, names="NamesSmall", must_cover=(), idle=False, actors=("a1",), extra_actors="NoExtra", extra_handles="NoExtra", types=("1",), profile="debug"):
+    return {"name": name, "Profile": '"%s"' % profile, "Actor": S(*actors), "Types": S(*types), "ExtraActors": "<- " + extra_actors, "ExtraHandles": "<- " + extra_handles, "Client": S(*clients), "MaxOps": maxops, "OpSet": S(*ops), "Scripts": "<- " + scripts,
             "Cfgs": "<- " + cfgs, "InitKinds": "<- " + kinds, "Faults": S(*faults), "MaxFaults": maxfaults, "Horizon": horizon, "IdleClock": "TRUE" if idle else "FALSE",
             "Names": "<- " + names, "must_cover": list(must_cover)}
 
@@ -163,13 +163,16 @@ PROPS = {
                             scripts="ScriptsPlain", cfgs="CfgsSvc", names="NamesMore", must_cover=("RegIssue", "RegBody", "RegPingReturn", "TryFromRegistry")),
                          mc("Reg-stop-2x2", actors=("a1", "r1", "r2"), ops=("from_registry", "replace", "stop", "send", "already_running"),
                             scripts="ScriptsStop", cfgs="CfgsSvc", names="NamesMore")],
-               "thorough": [mc("Reg-2x3", maxops=3, actors=("a1", "r1", "r2", "r3"), ops=("from_registry", "register", "unregister", "try_from_registry", "already_running", "stop", "replace"),
+               "thorough": [mc("Reg-release-2x2", actors=("a1", "r1", "r2"), ops=("from_registry", "register", "unregister", "try_from_registry", "already_running", "stop"),
+                               scripts="ScriptsPlain", cfgs="CfgsSvc", names="NamesMore", profile="release", must_cover=("RegIssue", "RegBody", "TryFromRegistry")),
+                            mc("Reg-2x3", maxops=3, actors=("a1", "r1", "r2", "r3"), ops=("from_registry", "register", "unregister", "try_from_registry", "already_running", "stop", "replace"),
                                scripts="ScriptsPlain", cfgs="CfgsSvc", names="NamesMore"),
                             mc("Reg-3x2", clients=C3, actors=("a1", "r1", "r2", "r3"), ops=("from_registry", "setup", "unregister", "stop", "try_from_registry"),
                                scripts="ScriptsPlain", cfgs="CfgsSvc", names="NamesMore")]},
         "dev_demo": [("D1", mc("Reg-2x2", actors=("a1", "r1", "r2"), ops=("from_registry", "register", "unregister", "stop"), scripts="ScriptsPlain", cfgs="CfgsSvc", names="NamesMore")),
                      ("D4", mc("Reg-2x2", actors=("a1", "r1", "r2"), ops=("from_registry", "already_running", "stop"), scripts="ScriptsPlain", cfgs="CfgsSvc", names="NamesMore"))],
         "families": [("registry", 300, 3000)],
+        "release_families": [("registry", 100, 1000)],
         "relevant": r'"op":"(from_registry|setup|register|replace|unregister|try_from_registry|already_running)"', "relevant_min": 2,
     },
     "C09": {
@@ -181,6 +184,7 @@ PROPS = {
                             mc("Broker-2x3", maxops=3, actors=("a1", "a2", "r1"), extra_actors="SubActors", extra_handles="SubHandles", ops=("publish", "send", "drop", "stop"),
                                scripts="ScriptsBroker", cfgs="CfgsSub")]},
         "families": [("broker", 300, 3000)],
+        "release_families": [("broker", 60, 600)],
         "relevant": r'"src":"broker"', "relevant_min": 1,
     },
     "C10": {
